@@ -41,6 +41,10 @@ def execute(sc):
         probes['increment_with_dt_zero'] = 1
     if st['zero_predict']:
         probes['predict_over_zero_fraction'] = 1
+    if st['stamping'] == 'int_ns':
+        probes['integer_nanosecond_stamps_beyond_2_53'] = 1
+    if st['inc_cols']:
+        probes['increments_columns_reordered_or_extra'] = 1
     return dict(violations=v02, digest=dg, sig=st['sig'],
                 nontrivial=(st['ops'] > 1 and (st['grow'] or st['set_pva'] or st['predicts']
                                                or st['empty_chunks'])),
@@ -71,7 +75,8 @@ PROBES_WANTED = ['buffer_growth', 'growth_during_predict', 'chunk_straddles_capa
                  'predict_interleaved', 'overwrite_keeping_held_attitude',
                  'blind_monitor_mode', 'chunk_of_100_or_more_rows',
                  'first_increment_stamp_equals_start_time', 'increment_with_dt_zero',
-                 'predict_over_zero_fraction']
+                 'predict_over_zero_fraction', 'integer_nanosecond_stamps_beyond_2_53',
+                 'increments_columns_reordered_or_extra']
 
 
 def describe():
